@@ -305,7 +305,8 @@ func handleHRANDFIELD(params internal.HandlerFuncParams) ([]byte, error) {
 		return nil, fmt.Errorf("value at %s is not a hash", key)
 	}
 
-	if count == 0 {
+	// Nothing to pick when no field is requested or the hash has no fields.
+	if count == 0 || len(hash) == 0 {
 		return []byte("*0\r\n"), nil
 	}
 
